@@ -127,4 +127,18 @@ theorem map_mul_zeros (v : List K) (t : K) : (zeros v).map (fun x => x * t) = ze
 theorem closeZero_eq (atol x : K) : closeZero atol x = decide (|x| ≤ atol) := by
   unfold closeZero; rw [absK_eq_abs]
 
+/-! ### the per-cell promise of the property, as a predicate -/
+
+/-- What the property promises for one cell after the norm was set to the target `t`,
+`v` being the old and `w` the new vector: same number of components; if `v ≠ 0` then `w`
+has squared length `t²`, is parallel to `v` (all 2×2 cross terms vanish) and — for a
+positive target — is a positive multiple of `v`; if `v = 0` then `w` is still `v`. -/
+def Rescaled (v w : List K) (t : K) : Prop :=
+  w.length = v.length ∧
+  (sqLen v ≠ 0 →
+    sqLen w = t * t ∧
+    (∀ a b : Nat, w.getD a 0 * v.getD b 0 = w.getD b 0 * v.getD a 0) ∧
+    (0 < t → ∃ c : K, 0 < c ∧ w = smul c v)) ∧
+  (sqLen v = 0 → w = v)
+
 end DFV.C15
